@@ -209,6 +209,22 @@ var restoreTypeExceptions = map[string]string{
 	"distsys.localArchetypeSubResource": "a view onto its parent LocalArchetypeResource, which is the registered dirty handle and restores the value itself",
 }
 
+func init() {
+	register(&core.Rule{ID: "CELL-RESTORE", Props: []string{"C07"}, Floor: 3,
+		Doc: "the RES-RESTORE obligations of the cell behind a shared variable and of its wrappers (LocalArchetypeResource, its indexed view, localShared, Persistent): Abort restores every field the section operations write, so the value other sharers find after an aborted section is the committed one - releasing the lock at Abort is serializable only if the cell was rolled back first",
+		Run: func(c *core.Ctx) {
+			runResRestore(c)
+			kept := c.Obs[:0]
+			for _, o := range c.Obs {
+				if strings.Contains(o.Construct, "LocalArchetypeResource") || strings.Contains(o.Construct, "localArchetypeSubResource") ||
+					strings.HasPrefix(o.Construct, "resources.localShared") || strings.HasPrefix(o.Construct, "resources.Persistent") {
+					kept = append(kept, o)
+				}
+			}
+			c.Obs = kept
+		}})
+}
+
 func runResRestore(c *core.Ctx) {
 	e := EnvOf(c.Prog)
 	iface := resourceIface(c, e)
